@@ -160,6 +160,10 @@ pub fn run_c14(ctx: &Ctx) -> Report {
                     let k = rng.below(6);
                     ops.push(QOp::Start(0));
                     for _ in 0..k {
+                        if rng.chance(1, 4) {
+                            // values written to a resultset without columns are ignored
+                            ops.push(QOp::Col(Cell::val(V::I32(5))));
+                        }
                         ops.push(if rng.bool() { QOp::Row(vec![], RowForm::Owned) } else { QOp::EndRow });
                     }
                     ops.push(if last { QOp::Finish } else { QOp::FinishOne });
